@@ -24,11 +24,11 @@ ROW_STORE_PREFIXES = (
 
 
 def is_merge_call(c):
-    if not (c.d.startswith("std::ops::Fn") and "::call" in c.d):
+    if not (c.d.startswith("core::ops::function::Fn") and "::call" in c.d):
         return False
     if len(c.ga) < 2:
         return False
-    tup = c.ga[1].replace("egglog_core_relations::common::", "").replace("std::vec::", "").replace(", std::alloc::Global", "")
+    tup = c.ga[1].replace("egglog_core_relations::common::", "").replace("alloc::vec::", "").replace(", alloc::alloc::Global", "")
     return tup.rstrip(")").endswith("&[Value], &[Value], &mut Vec<Value>")
 
 
